@@ -63,6 +63,11 @@ os.makedirs(dst, exist_ok=True)
 for f in ("patch.diff", "demo.py", "notes.md"):
     if os.path.exists(f"{a.src}/{f}"):
         shutil.copy(f"{a.src}/{f}", f"{dst}/{f}")
+import re as _re
+_notes = open(f"{a.src}/notes.md").read() if os.path.exists(f"{a.src}/notes.md") else ""
+_s = _re.split(r'(?<=[.!?])\s+', " ".join(_notes.split()))
+meta["breaks_property"] = a.prop
+meta["needs_to_manifest"] = " ".join([x for x in _s if _re.search(r"manifest|only (shows|when|if|with|after)|needs|requires|trigger", x, _re.I)][:4])[:900] or _notes[:600]
 meta["what_i_ran"] = [f"fresh worktree of /repo HEAD: demo.py (expect exit 0), git apply patch.diff, /tmp/seedtools/run_tests.sh (114 stable tests), demo.py (expect exit 1)",
                       f"git -C /repo apply patch.diff; ./sx check {a.prop} --tier {a.tier}; git -C /repo checkout -- ."]
 json.dump(meta, open(f"{dst}/meta.json", "w"), indent=1)
